@@ -129,8 +129,9 @@ def norm(text):
 
 # ------------------------------------------------------------------ item location
 class Item:
-    def __init__(self, src, toks, start, body_open, body_close, header):
+    def __init__(self, src, toks, start, body_open, body_close, header, attrs=()):
         self.src, self.toks = src, toks
+        self.attrs = list(attrs)
         self.start, self.body_open, self.body_close = start, body_open, body_close
         self.header = header  # normalised header text (without attributes)
 
@@ -151,11 +152,14 @@ def _items_in(src, toks, lo, hi):
     """yield Item for every `fn`/`impl`/`mod`/`struct`/`enum`/`trait` with a brace body among sig toks[lo:hi]
     (one nesting level)."""
     i = lo
+    pending = []
     while i < hi:
         t = toks[i]
         if t.kind == "punct" and t.text == "#" and i + 1 < hi and toks[i + 1].text in ("[", "!"):
             k = i + 1 if toks[i + 1].text == "[" else i + 2
-            i = match_close(toks, k) + 1
+            e = match_close(toks, k)
+            pending.append(" ".join(x.text for x in toks[k + 1:e]))
+            i = e + 1
             continue
         if t.kind == "ident" and t.text in ("fn", "impl", "mod", "struct", "enum", "trait", "union"):
             # walk back over qualifiers belonging to this item
@@ -185,15 +189,18 @@ def _items_in(src, toks, lo, hi):
             if j >= hi:
                 return
             if toks[j].text == ";":
-                i = j + 1; continue
+                i = j + 1; pending = []; continue
             close = match_close(toks, j)
             header = " ".join(x.text for x in toks[i:j])
-            yield Item(src, toks, start, j, close, header)
+            yield Item(src, toks, start, j, close, header, pending)
+            pending = []
             i = close + 1
             continue
         if t.kind == "punct" and t.text in OPEN:
             i = match_close(toks, i) + 1
             continue
+        if t.kind == "punct" and t.text == ";":
+            pending = []
         i += 1
 
 
@@ -221,6 +228,9 @@ class Source:
             for it in _items_in(self.src, self.toks, lo, hi):
                 if _header_matches(it.header, part):
                     found.append(it)
+            if len(found) > 1:
+                keep = [it for it in found if not any(_foreign_cfg(a) for a in it.attrs)]
+                if keep: found = keep
             if not found:
                 raise ExtractError(f"anchor lost: {self.path} :: {item_path} (no `{part}`)")
             if len(found) > 1:
@@ -291,6 +301,11 @@ class Source:
                     j = k - 2  # skip '#'
                 return ds
         raise ExtractError(f"anchor lost: type {name} in {self.path}")
+
+
+def _foreign_cfg(attr):
+    a = attr.replace(" ", "")
+    return a in ('cfg(target_os="windows")', 'cfg(windows)') or ("io-uring" in a and not a.startswith("cfg(not("))
 
 
 def _field_names(toks, bo, bc):
@@ -537,17 +552,30 @@ def insert_loop_specs(text, specs, fn_name):
     return "".join(out)
 
 
-def insert_after_pattern(text, pattern, insertion, fn_name, before=False):
-    """insert `insertion` right after (or before) the first occurrence of the token sequence `pattern`
-    (whitespace-insensitive).  Used for arm anchors (R6)."""
+def insert_after_pattern(text, pattern, insertion, fn_name, before=False, nth=1, arm_end=False):
+    """insert `insertion` right after (or before) the nth occurrence of the token sequence `pattern`
+    (whitespace-insensitive).  arm_end: insert before the `}` closing the first `{` that follows the pattern.
+    Used for ghost snapshots and arm-end assertions (R6)."""
     toks = full_tokens(text)
     s_idx = [i for i, t in enumerate(toks) if t.kind not in ("ws", "comment")]
     pat = [t.text for t in sig(tokenize(pattern))]
+    seen = 0
     for a in range(len(s_idx) - len(pat) + 1):
         if all(toks[s_idx[a + b]].text == pat[b] for b in range(len(pat))):
-            at = s_idx[a] if before else s_idx[a + len(pat) - 1] + 1
+            seen += 1
+            if seen != nth:
+                continue
+            if arm_end:
+                j = s_idx[a + len(pat) - 1] + 1
+                while j < len(toks) and toks[j].text != "{":
+                    j += 1
+                if j >= len(toks):
+                    break
+                at = match_close(toks, j)
+            else:
+                at = s_idx[a] if before else s_idx[a + len(pat) - 1] + 1
             return "".join(t.text for t in toks[:at]) + insertion + "".join(t.text for t in toks[at:])
-    raise ExtractError(f"anchor lost: pattern `{pattern}` in {fn_name}")
+    raise ExtractError(f"anchor lost: pattern `{pattern}` (occurrence {nth}) in {fn_name}")
 
 
 def replace_pattern(text, pattern, replacement, fn_name, count=1):
@@ -627,3 +655,124 @@ def rewrite_sig(sigtext, rules_log, ret_name=None):
 def strip_leading_attrs(item):
     """signature text of an Item without leading attributes/doc comments (they precede item.start)"""
     return item.sig_text
+
+
+# ------------------------------------------------------------------ R9: declared iterator desugarings
+# Patterns are token sequences with holes: `$x` matches one identifier, `$$x` matches a balanced, non-empty token
+# run (lazy, up to the next literal token at bracket depth 0).  The same hole name must match the same text.
+KEYWORDS = {'if','let','while','match','return','in','for','mut','loop','else','move','ref','break','continue','as','fn','impl'}
+R9_RULES = [
+    ("R9a", "for ( $i , $x ) in $$e . iter_mut ( ) . enumerate ( ) {",
+            "let mut r9_n: usize = 0; while r9_n < $$e.len() { let $i = r9_n; let $x = &mut $$e[$i]; r9_n = r9_n + 1;"),
+    ("R9c", "$$e . iter_mut ( ) . map ( | $x | ( $$m , $x ) ) . filter ( | ( $t , _ ) | $$c ) . for_each ( | ( _ , $x ) | $$b ) ;",
+            "let mut r9_n: usize = 0; while r9_n < $$e.len() { let $x = &mut $$e[r9_n]; r9_n = r9_n + 1; let $t = $$m; if $$c { $$b; } }"),
+    ("R9b", "$$e . iter_mut ( ) . filter ( | $x | $$c ) . for_each ( | $x | {",
+            "let mut r9_n: usize = 0; while r9_n < $$e.len() { let $x = &mut $$e[r9_n]; r9_n = r9_n + 1; if $$c {", "} ) ;", "} }"),
+    ("R9d", "$$e . iter_mut ( ) . map ( | $x | $x . $f ) . collect :: < Vec < _ >> ( ) . into_iter ( ) . for_each ( | $y | $$b )",
+            "{ let mut r9_v: Vec<usize> = Vec::new(); let mut r9_n: usize = 0; while r9_n < $$e.len() { r9_v.push($$e[r9_n].$f); r9_n = r9_n + 1; } "
+            "let mut r9_m: usize = 0; while r9_m < r9_v.len() { let $y = r9_v[r9_m]; r9_m = r9_m + 1; $$b; } }"),
+    ("R9e", "$$e . iter_mut ( ) . for_each ( | $x | {",
+            "let mut r9_n: usize = 0; while r9_n < $$e.len() { let $x = &mut $$e[r9_n]; r9_n = r9_n + 1; {", "} ) ;", "} }"),
+    ("R9g", "$$e . iter ( ) . any ( | $x | $$c )",
+            "{ let mut r9_any = false; let mut r9_k: usize = 0; while r9_k < $$e.len() && !r9_any { let $x = &$$e[r9_k]; if $$c { r9_any = true; } r9_k = r9_k + 1; } r9_any }"),
+    ("R9f", "for $x in $$e . iter ( ) {",
+            "let mut r9_n: usize = 0; while r9_n < $$e.len() { let $x = $$e.get(r9_n); r9_n = r9_n + 1;"),
+]
+
+
+def _match_pat(toks, sidx, a, pat):
+    """try to match pattern token list `pat` at significant index a.  returns (end_sig_index, bindings) or None"""
+    binds = {}
+
+    def rec(pi, si):
+        if pi == len(pat):
+            return si
+        p = pat[pi]
+        if p.startswith("$$"):
+            # lazy balanced run; next literal decides the end
+            depth = 0
+            j = si
+            while j < len(sidx):
+                t = toks[sidx[j]]
+                if j > si and depth == 0:
+                    # try to stop here
+                    saved = dict(binds)
+                    text = "".join(x.text for x in toks[sidx[si]:sidx[j - 1] + 1])
+                    if p not in binds or norm(binds[p]) == norm(text):
+                        binds[p] = text
+                        r = rec(pi + 1, j)
+                        if r is not None:
+                            return r
+                    binds.clear(); binds.update(saved)
+                if p == "$$e" and (not (t.kind == "ident" or t.text == ".") or t.text in KEYWORDS):
+                    return None
+                if t.kind == "punct" and t.text in OPEN: depth += 1
+                elif t.kind == "punct" and t.text in CLOSE:
+                    depth -= 1
+                    if depth < 0: return None
+                j += 1
+            return None
+        if si >= len(sidx):
+            return None
+        t = toks[sidx[si]]
+        if p.startswith("$"):
+            if t.kind != "ident": return None
+            if p in binds and binds[p] != t.text: return None
+            had = p in binds
+            binds[p] = t.text
+            r = rec(pi + 1, si + 1)
+            if r is None and not had: del binds[p]
+            return r
+        if t.text != p:
+            return None
+        return rec(pi + 1, si + 1)
+
+    end = rec(0, a)
+    if end is None:
+        return None
+    return end, binds
+
+
+def _subst(tmpl, binds):
+    out = tmpl
+    for k in sorted(binds, key=len, reverse=True):
+        out = out.replace(k, binds[k])
+    return out
+
+
+def apply_r9(text, rules_log):
+    changed = True
+    guard = 0
+    while changed and guard < 20:
+        changed = False; guard += 1
+        toks = full_tokens(text)
+        sidx = [i for i, t in enumerate(toks) if t.kind not in ("ws", "comment")]
+        for rule in R9_RULES:
+            name, pat, rep = rule[0], rule[1].split(), rule[2]
+            for a in range(len(sidx)):
+                m = _match_pat(toks, sidx, a, pat)
+                if not m:
+                    continue
+                end, binds = m
+                head_start, head_end = sidx[a], sidx[end - 1] + 1
+                new_head = _subst(rep, binds)
+                if len(rule) == 5:
+                    # the head ends with the `{` of a closure/loop body: find its matching `}` and rewrite the tail
+                    open_i = sidx[end - 1]
+                    close_i = match_close(toks, open_i)
+                    tail_pat = rule[3].split()
+                    cs = sidx.index(close_i)
+                    tail = [toks[sidx[cs + q]].text for q in range(len(tail_pat)) if cs + q < len(sidx)]
+                    if tail != tail_pat:
+                        continue
+                    tail_end = sidx[cs + len(tail_pat) - 1] + 1
+                    text = ("".join(t.text for t in toks[:head_start]) + new_head + "".join(t.text for t in toks[head_end:close_i])
+                            + rule[4] + "".join(t.text for t in toks[tail_end:]))
+                else:
+                    text = "".join(t.text for t in toks[:head_start]) + new_head + "".join(t.text for t in toks[head_end:])
+                rules_log.append((name, norm("".join(t.text for t in toks[head_start:head_end]))[:160] + "  =>  " + norm(new_head)[:200]))
+                changed = True
+                break
+            if changed:
+                break
+    return text
